@@ -140,6 +140,7 @@ type Sim struct {
 	cur    *Task
 	main   *Task
 	wakeCh chan struct{}
+	rootGoid uint64
 
 	plan, run stream
 	rng       *rand.Rand
@@ -291,6 +292,7 @@ func (s *Sim) root(body func(*Sim)) {
 	current.Store(s)
 	defer current.Store(nil)
 	s.wakeCh = make(chan struct{}, 1) // must be created inside the bubble
+	s.rootGoid = goid()
 	s.start = time.Now()
 	s.main = s.newTask("main", "harness", false)
 	s.startTask(s.main, func() { body(s) })
@@ -691,6 +693,9 @@ func goid() uint64 {
 
 func (s *Sim) self() *Task {
 	g := goid()
+	if g == s.rootGoid {
+		panic("simrt: instrumented or blocking code called from the scheduler (a Block predicate must only read harness state)")
+	}
 	s.mu.Lock()
 	t := s.byGoid[g]
 	s.mu.Unlock()
